@@ -44,6 +44,9 @@ type caseEv struct {
 	Vars    []int    `json:"vars"`
 	VarQs   []string `json:"varqs"`
 	Sugs    []int    `json:"sugs"`
+	HasNoB  bool     `json:"hasnob"`
+	NoB     [][]int  `json:"nob"`  // answer of the same search without context boosts
+	BCmp    [][]int  `json:"bcmp"` // per document: <<doc, contains a boosted word, cmp(score with boosts, score without)>>
 }
 
 type caseRunner struct {
@@ -85,7 +88,7 @@ func (cr *caseRunner) run(s scenario) {
 	c := getCorpus(s.Corpus)
 	q := s.queryText()
 	cr.tr++
-	ev := &caseEv{Op: "case", Tr: cr.tr, Sc: s, Q: q, N: len(c.db.Commands), Off: [][]int{}, Reps: []int{}, RepKind: []string{}, Vars: []int{}, VarQs: []string{}, Sugs: []int{}}
+	ev := &caseEv{Op: "case", Tr: cr.tr, Sc: s, Q: q, N: len(c.db.Commands), Off: [][]int{}, Reps: []int{}, RepKind: []string{}, Vars: []int{}, VarQs: []string{}, Sugs: []int{}, NoB: [][]int{}, BCmp: [][]int{}}
 	if len(q) > 80 {
 		ev.Q = q[:80]
 	}
@@ -179,6 +182,48 @@ func (cr *caseRunner) run(s scenario) {
 				ev.Reps = append(ev.Reps, cr.in.str(cr.in.answer, a))
 				ev.RepKind = append(ev.RepKind, "process")
 			}
+		}
+	}
+	// boost-free twin (C13): candidates and per-document score comparison
+	if cr.props["C13"] && (s.Boost || s.BoostV > 0) && s.Entry != "cli" {
+		t := s
+		t.Boost, t.BoostV = false, 0
+		to, _ := runEntry(c, t, q)
+		ev.HasNoB = true
+		ev.NoB = cr.in.abstractHits(c, to.hits)
+		base := map[int]float64{}
+		for _, h := range to.hits {
+			if d, ok := c.idx[h.cmd]; ok {
+				base[d] = h.score
+			}
+		}
+		boosted := s.options().ContextBoosts
+		for _, h := range out.hits {
+			d, ok := c.idx[h.cmd]
+			if !ok {
+				continue
+			}
+			b0, in0 := base[d]
+			if !in0 {
+				continue
+			}
+			contains := 0
+			toks := docTokens(&c.db.Commands[d])
+			for w, f := range boosted {
+				if f != 1.0 && toks[strings.ToLower(w)] {
+					contains = 1
+				}
+			}
+			cmp := 0
+			switch {
+			case h.score > b0:
+				cmp = 1
+			case h.score < b0:
+				cmp = -1
+			case h.score != b0:
+				cmp = -2
+			}
+			ev.BCmp = append(ev.BCmp, []int{d, contains, cmp})
 		}
 	}
 	// case re-spellings of the query (C20), engine level
